@@ -4,10 +4,12 @@ use crate::core::{Ctx, Prop};
 use crate::item::Scenario;
 use crate::prng::Rng;
 use crate::w_defrag;
+use crate::w_stream;
 
 pub fn generate(prop: Prop, rng: &mut Rng) -> Scenario {
     match prop {
         Prop::C07 => w_defrag::generate(rng, prop),
+        Prop::C02 | Prop::C03 | Prop::C16 => w_stream::generate(rng, prop),
         _ => w_defrag::generate(rng, prop),
     }
 }
@@ -15,7 +17,18 @@ pub fn generate(prop: Prop, rng: &mut Rng) -> Scenario {
 pub fn execute(scn: &Scenario, ctx: &mut Ctx) {
     match scn.world.as_str() {
         "defrag" => w_defrag::execute(scn, ctx),
+        "stream" => w_stream::execute(scn, ctx),
         _ => {}
+    }
+}
+
+/// Fields the minimiser may shrink: only those whose value carries no sender-side expectation
+/// (everything else is reduced by dropping whole items only).
+pub fn shrinkable(world: &str, kind: &str, field: &str) -> bool {
+    match (world, kind, field) {
+        ("defrag", "rec" | "nocopy", "data" | "rep" | "n") => true,
+        ("stream", "rec", "data") | ("stream", "garbage" | "insert", "data") | ("stream", "seg", "n") => true,
+        _ => false,
     }
 }
 
@@ -32,6 +45,7 @@ pub struct Meta {
 pub fn cell_name(space: &str, id: u32) -> String {
     match space {
         "defrag" => w_defrag::cell_name(id),
+        "cut" | "rec" | "many" => w_stream::cell_name(space, id),
         _ => format!("{}#{}", space, id),
     }
 }
@@ -50,6 +64,41 @@ pub fn meta(prop: Prop) -> Meta {
                 "heartbeat accumulations longer than 65535 bytes are unconstrained (no single-record counterpart): model comparison is suspended until the next reset()",
                 "sampled histories: a clean batch is evidence, not proof",
             ],
+        },
+
+        Prop::C02 => Meta {
+            level: "fault_enumeration",
+            rule: "one evaluation = one simulated TLS byte stream (1..10 records, all content types, boundary-biased declared lengths incl. the 16640/16641 cap, length lies, trailing garbage, hostile bit/byte faults) delivered to the monitor by a seeded segmentation schedule; at EVERY delivery event the real parse_tls_raw_record / parse_tls_encrypted / parse_tls_plaintext / parse_tls_record_header are applied to the receive buffer and compared with the 5-byte reference framer, and a Needed-driven reader must emit every complete record; under the seg-dribble and boundary-dribble schedules every cut point 0..=5+len of every record in the stream is enumerated; distinct = distinct 64-bit fingerprints of the abstract trace (per framing attempt: content type x outcome classes x buffer size class); non-trivial = at least 2 records or 2 delivery events or a fault fired",
+            fault_kinds: &["seg-dribble", "trailing-inflight", "eof", "length-lie", "garbage-inject", "bitflip", "byte-drop", "byte-insert", "malformed-first", "malformed-tail", "coalesce"],
+            cell_spaces: vec![("cut", None)],
+            real: &["parse_tls_raw_record", "parse_tls_encrypted", "parse_tls_plaintext", "parse_tls_record_header", "Debug of returned records"],
+            stub: &["peer message generator", "reference RFC encoder", "record layer", "TCP-like pipe with seeded segmentation / EOF / corruption", "reference 5-byte framer", "Needed-driven reader"],
+            assumptions: &[
+                "the reference framer (type u8, version u16, length u16 big-endian, cap 2^14+256) is the specification of framing",
+                "the Needed value before the 5 header bytes are available is unconstrained, as the property states",
+                "cut points are enumerated per sampled record (fault enumeration over the delivery schedule); the records themselves are sampled",
+            ],
+        },
+        Prop::C03 => Meta {
+            level: "exploration",
+            rule: "one evaluation = one simulated conversation: seeded abstract messages (all 17 handshake variants, CCS, alerts, application data, heartbeat with padding) packed into records by a seeded record layer (coalescing of same-type messages; in the malformed-peer batch constructively malformed first messages, empty payloads, unknown content types and malformed tails), delivered through the byte pipe; for every framed record the real one-step (parse_tls_plaintext) and two-step (raw record + parse_tls_record_with_header) pipelines are compared with the sender's log, field by field through an independent value->abstract-item walker; distinct = distinct abstract traces; non-trivial = >= 2 records / events or a fault fired",
+            fault_kinds: &["coalesce", "malformed-first", "malformed-tail", "seg-dribble", "trailing-inflight", "eof"],
+            cell_spaces: vec![("rec", Some((0..18).filter(|i| ![3 * 3 + 1, 3 * 3 + 2, 4 * 3 + 2, 5 * 3, 5 * 3 + 2].contains(i)).collect()))],
+            real: &["parse_tls_plaintext", "parse_tls_raw_record", "parse_tls_record_with_header", "all per-message and handshake body parsers reached through them", "Debug of returned values"],
+            stub: &["peer message generator", "reference RFC encoder", "record layer (packing plan)", "byte pipe", "sent-log / delivered-log comparator"],
+            assumptions: &[
+                "strict oracle only on packings for which the crate promises delivery (complete same-type messages per record); malformed inputs are constructed with certain verdicts, never guessed from random corruption",
+                "an empty remainder is compared by length only (it has no bytes whose address could matter)",
+            ],
+        },
+        Prop::C16 => Meta {
+            level: "exploration",
+            rule: "one evaluation = one simulated TLS byte stream (see C02) ; at every delivery event tls_parser_many is applied to the monitor's receive buffer (n complete records followed by nothing, a partial record, an oversize header or garbage) and compared with an explicit loop over parse_tls_plaintext (list, remainder by address, fails-iff-first-fails), and the deprecated tls_parser with parse_tls_plaintext as full results; DTLS datagram buffers are covered by the dgram world; distinct = distinct abstract traces; non-trivial = >= 2 records / events or a fault fired",
+            fault_kinds: &["seg-dribble", "trailing-inflight", "eof", "length-lie", "garbage-inject", "bitflip", "byte-drop", "byte-insert", "coalesce"],
+            cell_spaces: vec![("many", Some(vec![0, 1, 2, 4, 5, 6, 8, 9, 10, 12, 13, 14]))],
+            real: &["tls_parser_many", "tls_parser", "parse_tls_plaintext", "parse_dtls_plaintext_records", "parse_dtls_plaintext_record"],
+            stub: &["peers, encoder, record layer, byte pipe / datagram net", "explicit single-record loop"],
+            assumptions: &["the single-record parser is the specification of the many-parser (relation between two real functions)"],
         },
         _ => Meta {
             level: "exploration",
